@@ -207,3 +207,4 @@ PROP = Prop(
                  'the Functional is assembled on the trial basis because BilinearForm takes w.x/w.h/w.n from it'],
     subs=[Sub('forms', body, strategy=case, quick=700, thorough=20000)],
     design_ref='DESIGN.md section 6, C01')
+PROP.rule += ('. Added in round 2: keyword parameters named like the defaults (x, h, n) must override them in BilinearForm, LinearForm and Functional alike.')
